@@ -95,6 +95,17 @@ class ReachingDefs(object):
                     return a.value
         return None
 
+    def tuple_def(self, d, name):
+        """If def node d is ``a, b = <expr>`` binding ``name``: (expr, index); else None."""
+        a = d.ast
+        if d.kind == 'stmt' and isinstance(a, ast.Assign):
+            for t in a.targets:
+                if isinstance(t, (ast.Tuple, ast.List)):
+                    for i, el in enumerate(t.elts):
+                        if isinstance(el, ast.Name) and el.id == name:
+                            return a.value, i
+        return None
+
     def origin(self, n, e, depth=8):
         """Follow single-definition local copies: returns (expr, node) of the defining expression."""
         while depth > 0 and isinstance(e, ast.Name):
